@@ -282,10 +282,10 @@ def sxPageBlock : SX → Option SPageBlock
   | _ => none
 
 def sxPageSel : SX → Option SPageSel
-  | .list [n, .list mid, p] =>
-    match sxOptCps n, mapM? sxCps mid, sxOptCps p with
-    | some n, some mid, some p => some ⟨n, mid, p⟩
-    | _, _, _ => none
+  | .list [n, .list mid, p, sp] =>
+    match sxOptCps n, mapM? sxCps mid, sxOptCps p, sxMask sp with
+    | some n, some mid, some p, some sp => some ⟨n, mid, p, sp⟩
+    | _, _, _, _ => none
   | _ => none
 
 mutual
